@@ -21,6 +21,21 @@ D  environment: one subprocess per (variable, value); import must raise
    ValueError for unrecognised values, otherwise the whole matrix of B runs
    in the child under the environment-provided state.
 
+E  lazy callables (coroutine functions, generator functions, async generators; as
+   function / method / classmethod / staticmethod in both decorator orders; explicit
+   decorator, typechecker=None, import hook): a call only CREATES an object, the body
+   runs when it is driven (send / next / asend, by hand, no event loop).  ALL histories
+   of length <= 4 (quick) / <= 5 (thorough) over {ON, OFF, CW, CI, CN, S} (S = drive
+   every live object one step), from a callable decorated while enabled and while
+   disabled, plus a matrix of switch-timing templates (flip before the call, between
+   the call and the first step, between steps) x the whole argument battery.  Every
+   moment is compared with the undecorated source: outcome of the call (exception
+   type+message raised AT THE CALL, or type of the object returned), every step event
+   (suspension / yielded / returned object identity, exception identity), body log per
+   moment (number of executions, argument identities, context probe).  A call made
+   while checking is off must equal plain code for its whole life, whatever the switch
+   does later.
+
 jaxtyping.config is restored to "enabled" in finally blocks everywhere.
 """
 from __future__ import annotations
@@ -156,6 +171,7 @@ FAMILY = {
     "property_outer": "F2",
     "property_inner": "F2",
     "dataclass": "F3",
+    "lambda": "F1",
 }
 HOOK_KINDS = ("def", "method", "classmethod_inner", "staticmethod_inner", "property_inner", "dataclass")
 
@@ -171,6 +187,7 @@ NTC_PLACEMENTS = {
     ("deco", "property_outer"): ("below",),
     ("deco", "property_inner"): ("above", "below"),
     ("deco", "dataclass"): ("above", "below"),
+    ("deco", "lambda"): ("above", "below"),
     ("hook", "def"): ("fn",),
     ("hook", "method"): ("fn", "cls"),
     ("hook", "classmethod_inner"): ("fn", "cls"),
@@ -178,6 +195,39 @@ NTC_PLACEMENTS = {
     ("hook", "property_inner"): ("fn",),
     ("hook", "dataclass"): ("cls",),
 }
+
+# lazy kinds (part E): <flavour>_<holder>; a call creates a coroutine / generator /
+# async generator, the body runs when that object is driven
+FLAVOURS = ("coro", "gen", "agen")
+LAZY_HOLDERS = ("def", "method", "classmethod_outer", "classmethod_inner", "staticmethod_outer", "staticmethod_inner")
+LAZY_KINDS = tuple(f"{fl}_{h}" for fl in FLAVOURS for h in LAZY_HOLDERS)
+_LAZY_SET = frozenset(LAZY_KINDS)
+# the import hook instruments `def` only (ast.FunctionDef): hooked generator functions are
+# decorated, hooked `async def` is left alone (observed, reported in coverage)
+HOOK_LAZY_KINDS = ("gen_def", "gen_method", "gen_classmethod_inner", "gen_staticmethod_inner", "coro_def", "coro_method", "agen_def")
+# AG is a class of its own, used nowhere else: jaxtyped(typechecker=None) on a generator function
+# calls make_transparent() on the classes inside its return annotation (a process-wide mutation,
+# the known C12 finding), which must not reach the parameter annotation A shared by all cases
+LAZY_RET = {"coro": "A", "gen": "Iterator[AG]", "agen": "AsyncIterator[AG]"}
+
+
+def base_kind(kind):
+    """The holder shape that decides how a kind is reached and called."""
+    if kind in _LAZY_SET:
+        return kind.split("_", 1)[1]
+    return "def" if kind == "lambda" else kind
+
+
+def flavour(kind):
+    return kind.split("_", 1)[0] if kind in _LAZY_SET else None
+
+
+def family(kind):
+    return "F1" if kind in _LAZY_SET else FAMILY[kind]
+
+
+def ntc_placements(delivery, kind):
+    return NTC_PLACEMENTS[(delivery, kind if kind == "lambda" else base_kind(kind))]
 
 
 def _lines(decos, indent):
@@ -200,6 +250,19 @@ def source(kind, j: bool, ntc):
     ntc: None | 'above' | 'below' (relative to jaxtyped) | 'fn' (hooked: on the
     function, the hook then adds jaxtyped beneath it) | 'cls' (on the class)."""
     cls_deco = f"{NTC}\n" if ntc == "cls" else ""
+    if kind in _LAZY_SET:
+        return lazy_source(kind, j, ntc)
+    if kind == "lambda":
+        # a lambda cannot be annotated in its own syntax: the annotations are attached to
+        # the function object before decoration
+        return (
+            "_l = lambda x, y=DFLT, *, k=0: BODY('f', x, y, k)\n"
+            "_l.__annotations__ = dict(x=A, y=A, k=int)\n"
+            "_l.__annotations__['return'] = A\n"
+            + ("_l = no_type_check(_l)\n" if ntc == "below" else "")
+            + ("f = jaxtyped(typechecker=TC)(_l)\n" if j else "f = _l\n")
+            + ("f = no_type_check(f)\n" if ntc == "above" else "")
+        )
     if kind == "def":
         return _lines(_fn_level(j, ntc), "") + f"def f({SIG}) -> A:\n    return BODY('f', x, y, k)\n"
     if kind == "method":
@@ -241,6 +304,38 @@ def source(kind, j: bool, ntc):
             + "    def __post_init__(self):\n        BODY('post', self.x, self.y)\n"
         )
     raise HarnessError(f"unknown kind {kind}")
+
+
+def lazy_source(kind, j: bool, ntc):
+    """coroutine function / generator function / async generator in one of six holders.
+    Two body sections (logged separately) around a suspension point / a yield."""
+    fl, holder = kind.split("_", 1)
+    cls_deco = f"{NTC}\n" if ntc == "cls" else ""
+    if holder == "def":
+        pre, ind, first, name, decos = "", "", "", "f", _fn_level(j, ntc)
+    elif holder == "method":
+        pre, ind, first, name, decos = f"{cls_deco}class C:\n", "    ", "self, ", "m", _fn_level(j, ntc)
+    else:
+        desc, arr = holder.split("_")
+        pre, ind = f"{cls_deco}class C:\n", "    "
+        first = "cls, " if desc == "classmethod" else ""
+        name = "cm" if desc == "classmethod" else "sm"
+        if arr == "outer":
+            if ntc not in (None, "below", "cls"):
+                raise HarnessError("placement not defined")
+            decos = ([J] if j else []) + [f"@{desc}"] + ([NTC] if ntc == "below" else [])
+        else:
+            decos = [f"@{desc}"] + _fn_level(j, ntc)
+    head = "def" if fl == "gen" else "async def"
+    b = ind + "    "
+    body = f"{b}r = BODY('{name}', x, y, k)\n"
+    if fl == "coro":
+        body += f"{b}await SUSP\n{b}BODY('{name}2')\n{b}return r\n"
+    elif fl == "gen":
+        body += f"{b}yield r\n{b}BODY('{name}2')\n{b}yield y\n{b}return r\n"
+    else:
+        body += f"{b}yield r\n{b}await SUSP\n{b}BODY('{name}2')\n{b}yield y\n"
+    return pre + _lines(decos, ind) + f"{ind}{head} {name}({first}{SIG}) -> {LAZY_RET[fl]}:\n" + body
 
 
 # --------------------------------------------------------------------------- batteries
@@ -328,7 +423,7 @@ class Fx:
         self.jaxtyping = jaxtyping
         self.config = jaxtyping.config
         self.TypeCheckError = jaxtyping.TypeCheckError
-        self.tc = {"typeguard": typeguard.typechecked, "beartype": beartype.beartype}
+        self.tc = {"typeguard": typeguard.typechecked, "beartype": beartype.beartype, "none": None}
         self.A = Float[Duck, "a"]
         self.B = Float[Duck, "c19probe"]
         self.objs = {
@@ -371,11 +466,15 @@ class Fx:
 
         self.names = {
             "A": self.A,
+            "AG": Float[Duck, "c19gen"],
             "DFLT": self.objs["DFLT"],
             "BODY": BODY,
             "jaxtyped": jaxtyped,
             "no_type_check": typing.no_type_check,
             "dataclass": dataclasses.dataclass,
+            "Iterator": typing.Iterator,
+            "AsyncIterator": typing.AsyncIterator,
+            "SUSP": _Susp(),
         }
         self._plain = {}
 
@@ -428,10 +527,11 @@ class Fx:
 
     # -- calls ----------------------------------------------------------------------
     def thunk(self, kind, ns, call):
-        fam = FAMILY[kind]
+        fam = family(kind)
         spec = BATTERY[fam][call]
         _, _, payload = spec
         o = self.objs
+        kind = base_kind(kind)
         if fam in ("F1", "F3"):
             args, kwargs = payload
             a = tuple(o[n] for n in args)
@@ -505,6 +605,14 @@ class Fx:
         return out
 
 
+class _Susp:
+    """Awaitable with one suspension point: the driver sees the token 'SUSP'."""
+
+    def __await__(self):
+        got = yield "SUSP"
+        return got
+
+
 def dataclasses_is_instance(v):
     return hasattr(type(v), "__dataclass_fields__")
 
@@ -534,8 +642,8 @@ class World:
         tag = f"c19hk{os.getpid()}"
         per_tc = {t: [] for t in TCS}
         for t in TCS:
-            for kind in HOOK_KINDS:
-                for ntc in (None,) + NTC_PLACEMENTS[("hook", kind)]:
+            for kind in HOOK_KINDS + HOOK_LAZY_KINDS:
+                for ntc in (None,) + ntc_placements("hook", kind):
                     name = f"{tag}_{t}_{kind}_{ntc or 'none'}"
                     with open(os.path.join(self.dir, name + ".py"), "w") as f:
                         f.write(HOOK_HDR + source(kind, False, ntc))
@@ -589,7 +697,7 @@ def execute(fx, world, combo, steps, predecorate=True):
     delivery, kind, tcname, ntc = combo
     plain = fx.plain(kind)
     subjects = [world.decorate(combo)] if predecorate else []
-    fam = BATTERY[FAMILY[kind]]
+    fam = BATTERY[family(kind)]
     recs = []
     for i, st in enumerate(steps):
         if st[0] == "update":
@@ -818,7 +926,7 @@ def script_flags(script, initial=False):
 
 
 def expand(script, kind):
-    names = list(BATTERY[FAMILY[kind]])
+    names = list(BATTERY[family(kind)])
     return [("call", names) if (s[0] == "call" and s[1] == "ALL") else s for s in script]
 
 
@@ -902,6 +1010,375 @@ def _job_dc(job):
     finally:
         fx.restore()
     return dict(stats=st, viols=fx.take_anomalies(), samples=[])
+
+
+# --------------------------------------------------------------------------- part E (lazy callables)
+
+LOPS = ("ON", "OFF", "CW", "CI", "CN", "S")
+LAZY_TCS = TCS + ("none",)  # 'none': jaxtyped(typechecker=None) - a binding context only, nothing is checked
+
+# (name, switch state at decoration, ops); "C" = create one object per call of the battery
+LAZY_TEMPLATES = (
+    ("off", True, ("C",)),
+    ("off-on@0", True, ("C", "OFF")),
+    ("off-on@1", True, ("C", "S", "OFF")),
+    ("off-on@2", True, ("C", "S", "S", "OFF")),
+    ("off-on@0-off@1", True, ("C", "OFF", "S", "ON")),
+    ("on", False, ("C",)),
+    ("on-off@0", False, ("C", "ON")),
+    ("on-off@1", False, ("C", "S", "ON")),
+    ("decorated-off-then-on", True, ("OFF", "C")),
+    ("decorated-off-then-on-off", True, ("OFF", "ON", "C")),
+    ("decorated-on-then-off", False, ("ON", "C")),
+    ("decorated-on-then-off-on@0", False, ("ON", "C", "OFF")),
+    ("decorated-on-then-off-on", False, ("ON", "OFF", "C")),
+)
+# in the environment children the switch state at decoration is what the environment provides
+CHILD_LAZY_TEMPLATES = (
+    ("env", ("C",)),
+    ("env-off@0", ("C", "OFF")),
+    ("env-on@0", ("C", "ON")),
+    ("env-off@1", ("C", "S", "OFF")),
+    ("env-on@1", ("C", "S", "ON")),
+    ("off-first", ("OFF", "C")),
+    ("on-first", ("ON", "C")),
+    ("on-first-off@0", ("ON", "C", "OFF")),
+    ("off-first-on@0", ("OFF", "C", "ON")),
+)
+CHILD_LAZY_COMBOS = (
+    [("deco", k, t, None) for t in LAZY_TCS for k in ("coro_def", "gen_def", "agen_def", "coro_method", "gen_classmethod_outer", "agen_staticmethod_inner")]
+    + [("deco", "coro_def", t, n) for t in TCS for n in ("above", "below")]
+    + [("hook", k, t, None) for t in TCS for k in ("gen_def", "coro_def")]
+)
+MAX_STEPS = 12  # the longest body needs 4
+
+
+def lazy_histories(maxlen):
+    return [h for n in range(1, maxlen + 1) for h in itertools.product(LOPS, repeat=n)]
+
+
+def lazy_ops(hist):
+    return tuple(f"C:{CALL_OF_OP[o]}" if o in CALL_OF_OP else o for o in hist)
+
+
+def lazy_judges_enabled(combo):
+    """Is 'an ill-typed call made while checking is on raises TypeCheckError' required?
+    Not for typechecker=None (nothing checks), not for hooked `async def` (the import hook
+    does not instrument it: there is no checking to restore)."""
+    delivery, kind, tcname, _ = combo
+    return tcname != "none" and not (delivery == "hook" and flavour(kind) in ("coro", "agen"))
+
+
+class Live:
+    """One coroutine / generator / async generator, driven by hand one step at a time."""
+
+    def __init__(self, fx, fl, obj):
+        self.fx, self.fl, self.obj = fx, fl, obj
+        self.pending = None  # the asend() awaitable in flight (async generators)
+        self.done = False
+
+    def step(self):
+        fx = self.fx
+        try:
+            if self.fl == "coro":
+                return ("susp", fx.token(self.obj.send(None)))
+            if self.fl == "gen":
+                return ("yield", fx.token(next(self.obj)))
+            if self.pending is None:
+                self.pending = self.obj.__anext__()
+            try:
+                v = self.pending.send(None)
+            except BaseException:
+                self.pending = None
+                raise
+            return ("susp", fx.token(v))
+        except StopIteration as e:
+            if self.fl == "agen":
+                return ("yield", fx.token(e.value))
+            self.done = True
+            return ("ret", fx.token(e.value))
+        except StopAsyncIteration:
+            self.done = True
+            return ("end",)
+        except Exception as e:  # noqa: BLE001
+            self.done = True
+            return ("exc", fx.exc_token(e))
+
+    def close(self):
+        try:
+            if self.fl == "agen" and hasattr(self.obj, "aclose"):
+                if self.pending is not None:
+                    self.pending.close()
+                c = self.obj.aclose()
+                try:
+                    c.send(None)
+                except BaseException:  # noqa: BLE001
+                    pass
+            elif hasattr(self.obj, "close"):
+                self.obj.close()
+        except BaseException:  # noqa: BLE001
+            pass
+
+
+def _lazy_moment(fx, mode, fn):
+    """Run one moment (the call, or one step) and return (event, body log of that moment)."""
+    fx.log.clear()
+    fx.mode = mode
+    try:
+        ev = fn()
+    finally:
+        fx.mode = "x"
+    return ev, tuple(fx.log)
+
+
+def _lazy_call(fx, kind, ns, call, mode):
+    box = []
+
+    def go():
+        try:
+            r = fx.thunk(kind, ns, call)()
+        except Exception as e:  # noqa: BLE001
+            return ("exc", fx.exc_token(e))
+        box.append(Live(fx, flavour(kind), r))
+        return ("ret", fx.token(r))
+
+    ev, log = _lazy_moment(fx, mode, go)
+    return (ev, log), (box[0] if box else None)
+
+
+def _lazy_step(fx, live, mode):
+    if live is None or live.done:
+        return (("dead",), ())
+    return _lazy_moment(fx, mode, live.step)
+
+
+def _noprobe(obs):
+    return (obs[0], [e[:2] for e in obs[1]])
+
+
+def _lazy_event(phase, at, flag, d, p):
+    eq = d == p
+    return dict(phase=phase, at=at, flag=flag, eq=eq, eq_noprobe=eq or _noprobe(d) == _noprobe(p), tce=d[0] == ("exc", "TypeCheckError"), d=repr(d), p=repr(p), body_runs_plain=len(p[1]))
+
+
+def run_lazy(fx, world, combo, initial, ops, managed=True):
+    """Execute one lazy history on the REAL implementation.
+
+    The callable is decorated with the switch in state `initial`; ops: 'ON' | 'OFF' |
+    'S' (every live object, decorated and undecorated, is driven one step) |
+    'C:<call>[,<call>..]' (one new object per named argument list).  At the end every
+    live object is driven to exhaustion.  -> list of pair records
+    dict(obj, call, group, created_at, flag_at_create, events=[...]).
+    managed=False: the caller owns the switch state before / after (environment child)."""
+    delivery, kind, tcname, ntc = combo
+    if managed:
+        fx.restore()
+    pairs, recs = [], []
+    try:
+        if managed and initial:
+            fx.config.update(D_ITEM, True)
+        ns = world.decorate(combo)
+        plain = fx.plain(kind)
+        flag = bool(initial)
+
+        def step_all(at):
+            for pr in pairs:
+                if pr["live"]:
+                    p = _lazy_step(fx, pr["p"], pr["mode"])
+                    d = _lazy_step(fx, pr["d"], pr["mode"])
+                    pr["n"] += 1
+                    pr["rec"]["events"].append(_lazy_event(f"step{pr['n']}", at, flag, d, p))
+                    pr["live"] = any(x is not None and not x.done for x in (pr["d"], pr["p"]))
+                    if pr["n"] > MAX_STEPS:
+                        raise HarnessError(f"lazy object not exhausted after {MAX_STEPS} steps: {combo} {ops}")
+
+        for i, op in enumerate(ops):
+            if op in ("ON", "OFF"):
+                v = (ON_SPELL if op == "ON" else OFF_SPELL)[i % 5]
+                try:
+                    fx.config.update(D_ITEM, v)
+                except Exception as e:  # noqa: BLE001  (an accepted spelling)
+                    recs.append(dict(obj=-1, call="UPDATE", group="u", created_at=i, flag_at_create=flag, events=[], exc=type(e).__name__, value=vrepr(v)))
+                    break
+                flag = op == "ON"
+            elif op == "S":
+                step_all(i)
+            else:
+                for call in op[2:].split(","):
+                    group, mode, _ = F1[call]
+                    p, p_live = _lazy_call(fx, kind, plain, call, mode)
+                    d, d_live = _lazy_call(fx, kind, ns, call, mode)
+                    rec = dict(obj=len(pairs), call=call, group=group, created_at=i, flag_at_create=flag, events=[_lazy_event("call", i, flag, d, p)])
+                    pairs.append(dict(rec=rec, mode=mode, d=d_live, p=p_live, n=0, live=(d_live is not None or p_live is not None)))
+                    recs.append(rec)
+        else:
+            while any(pr["live"] for pr in pairs):
+                step_all("end")
+    finally:
+        for pr in pairs:
+            for x in (pr["d"], pr["p"]):
+                if x is not None and not x.done:
+                    x.close()
+        if managed:
+            fx.restore()
+    return recs
+
+
+def judge_lazy(rec, ntc, judge_enabled=True):
+    """-> (phase, reason) | None.  A call made while checking is off (switch or no_type_check)
+    must equal the undecorated code at the call and at every later step, whatever the switch
+    does afterwards.  A call made while checking is on: a well-typed one (or one whose body
+    raises) must give the same results; an ill-typed one must raise TypeCheckError at some
+    moment provided checking stayed on for its whole life (the statement does not say at which
+    moment a lazy callable is checked: don't-care when the switch moved meanwhile)."""
+    if rec["group"] == "u":
+        return ("update", f"update-{rec['value']}-raised-{rec['exc']}")
+    off = rec["flag_at_create"] or ntc is not None
+    evs = rec["events"]
+    if off:
+        for ev in evs:
+            if not ev["eq"]:
+                return (ev["phase"], "ntc-differs" if (ntc is not None and not rec["flag_at_create"]) else "disabled-differs")
+        return None
+    g = rec["group"]
+    if g in ("w", "e"):
+        for ev in evs:
+            if not ev["eq_noprobe"]:
+                return (ev["phase"], "enabled-welltyped-differs")
+    elif g in ("i", "ei") and judge_enabled:
+        if not any(ev["flag"] for ev in evs) and not any(ev["tce"] for ev in evs):
+            return ("life", "enabled-illtyped-not-TypeCheckError")
+    return None
+
+
+def lazy_nontrivial(rec, ntc, earlier_on):
+    off = rec["flag_at_create"] or ntc is not None
+    if off:
+        return rec["group"] in ("i", "r", "n", "e", "ei", "x")
+    return rec["group"] in ("i", "ei") and earlier_on and not any(ev["flag"] for ev in rec["events"])
+
+
+def lazy_flip_during_life(rec):
+    return any(ev["flag"] != rec["flag_at_create"] for ev in rec["events"])
+
+
+def _lazy_stats():
+    return dict(evaluations=0, nontrivial=0, lazy_histories=0, lazy_objects=0, lazy_events=0, lazy_objects_switch_moved_during_life=0, lazy_call_time_exceptions=0, lazy_enabled_illtyped_dontcare=0, lazy_hook_async_objects=0, lazy_hook_async_checked=0)
+
+
+def _lazy_account(st, combo, rec, initial, ops_before_on):
+    n = len(rec["events"])
+    st["evaluations"] += n
+    st["lazy_objects"] += 1
+    st["lazy_events"] += n
+    if lazy_nontrivial(rec, combo[3], ops_before_on or initial):
+        st["nontrivial"] += n
+    st["lazy_objects_switch_moved_during_life"] += lazy_flip_during_life(rec)
+    if rec["events"] and rec["events"][0]["p"].startswith("(('exc'"):
+        st["lazy_call_time_exceptions"] += 1
+    if rec["group"] in ("i", "ei") and not rec["flag_at_create"] and combo[3] is None and lazy_flip_during_life(rec):
+        st["lazy_enabled_illtyped_dontcare"] += 1
+    if combo[0] == "hook" and flavour(combo[1]) in ("coro", "agen") and rec["group"] == "i" and not rec["flag_at_create"] and combo[3] is None:
+        st["lazy_hook_async_objects"] += 1
+        st["lazy_hook_async_checked"] += any(ev["tce"] for ev in rec["events"])
+
+
+def lazy_what(combo, initial, ops, rec, phase, reason):
+    ev = next((e for e in rec["events"] if e["phase"] == phase), rec["events"][-1] if rec["events"] else None)
+    trail = "; ".join(f"{e['phase']}@op{e['at']}[{'off' if e['flag'] else 'on'}]: decorated {e['d']} vs undecorated {e['p']}" for e in rec["events"][:6])
+    return (
+        f"lazy {combo_str(combo)} decorated while checking {'off' if initial else 'on'}, ops {'-'.join(ops)}: object #{rec['obj']} (call {rec['call']}, made while "
+        f"checking {'off' if rec['flag_at_create'] else 'on'}) differs at {phase} [{reason}]" + (f": decorated {ev['d']} vs undecorated {ev['p']}" if ev and phase != "life" else "") + f" || whole life: {trail}"
+    )
+
+
+def _job_lazy_hist(job):
+    fx = get_fx()
+    combo, initial = tuple(job["combo"]), job["initial"]
+    hs = lazy_histories(job["maxlen"])
+    je = lazy_judges_enabled(combo)
+    st = _lazy_stats()
+    viols, samples = [], []
+    try:
+        with World(fx, need_hook=(combo[0] == "hook")) as w:
+            for idx in job["idx"]:
+                hist = hs[idx]
+                ops = lazy_ops(hist)
+                st["lazy_histories"] += 1
+                for rec in run_lazy(fx, w, combo, initial, ops):
+                    seen_on = initial or "ON" in hist[: rec["created_at"]]
+                    _lazy_account(st, combo, rec, initial, seen_on)
+                    verdict = judge_lazy(rec, combo[3], je)
+                    if verdict and len(viols) < 40:
+                        phase, reason = verdict
+                        viols.append(
+                            Violation(
+                                key=f"C19:lazy:{combo_str(combo)}:decorated-{'off' if initial else 'on'}:{'-'.join(hist)}:obj{rec['obj']}:{phase}:{reason}",
+                                what=lazy_what(combo, initial, hist, rec, phase, reason),
+                                replay=dict(part="lazy-hist", combo=list(combo), initial=initial, ops=list(hist), obj=rec["obj"]),
+                            ).to_json()
+                        )
+                    if len(samples) < 1 and rec["flag_at_create"] and rec["group"] == "i" and lazy_flip_during_life(rec) and len(rec["events"]) >= 3:
+                        samples.append(dict(part="lazy-hist", combo=combo_str(combo), decorated_while="off" if initial else "on", ops="-".join(hist), obj=rec["obj"], events=[(e["phase"], e["at"], "off" if e["flag"] else "on", e["d"]) for e in rec["events"]]))
+    finally:
+        fx.restore()
+    return dict(stats=st, viols=viols + fx.take_anomalies(), samples=samples)
+
+
+def lazy_matrix_combos():
+    out = []
+    for t in LAZY_TCS:
+        for kind in LAZY_KINDS:
+            for ntc in (None,) + ntc_placements("deco", kind):
+                out.append(("deco", kind, t, ntc))
+    for t in TCS:
+        for kind in HOOK_LAZY_KINDS:
+            for ntc in (None,) + ntc_placements("hook", kind):
+                out.append(("hook", kind, t, ntc))
+    return out
+
+
+def template_ops(ops):
+    return tuple("C:" + ",".join(c for c in F1) if o == "C" else o for o in ops)
+
+
+def run_lazy_template(fx, world, combo, tname):
+    _, initial, ops = next(t for t in LAZY_TEMPLATES if t[0] == tname)
+    return initial, ops, run_lazy(fx, world, combo, initial, template_ops(ops))
+
+
+def _job_lazy_matrix(job):
+    fx = get_fx()
+    st = _lazy_stats()
+    st["lazy_matrix_cases"] = 0
+    viols, samples = [], []
+    try:
+        with World(fx, need_hook=any(c[0] == "hook" for c in job["combos"])) as w:
+            for combo in job["combos"]:
+                combo = tuple(combo)
+                je = lazy_judges_enabled(combo)
+                for tname, _, _ in LAZY_TEMPLATES:
+                    st["lazy_matrix_cases"] += 1
+                    st["lazy_histories"] += 1
+                    initial, ops, recs = run_lazy_template(fx, w, combo, tname)
+                    for rec in recs:
+                        seen_on = initial or "ON" in ops[: rec["created_at"]]
+                        _lazy_account(st, combo, rec, initial, seen_on)
+                        verdict = judge_lazy(rec, combo[3], je)
+                        if verdict and len(viols) < 60:
+                            phase, reason = verdict
+                            viols.append(
+                                Violation(
+                                    key=f"C19:lazy-matrix:{combo_str(combo)}:{tname}:{rec['call']}:{phase}:{reason}",
+                                    what=lazy_what(combo, initial, ops, rec, phase, reason),
+                                    replay=dict(part="lazy-matrix", combo=list(combo), template=tname, call=rec["call"]),
+                                ).to_json()
+                            )
+                        if len(samples) < 1 and rec["group"] == "n" and rec["flag_at_create"] and tname == "off-on@0":
+                            samples.append(dict(part="lazy-matrix", combo=combo_str(combo), template=tname, call=rec["call"], events=[(e["phase"], e["at"], "off" if e["flag"] else "on", e["d"], e["p"]) for e in rec["events"]]))
+    finally:
+        fx.restore()
+    return dict(stats=st, viols=viols + fx.take_anomalies(), samples=samples)
 
 
 # --------------------------------------------------------------------------- part C
@@ -1086,6 +1563,25 @@ def _child_main():
                         setattr(fx.config, D_ITEM, out["flags"][0])
                 keep = ("step", "call", "group", "eq", "eq_noprobe", "tce", "d", "p", "exc", "value")
                 out["cases"][json.dumps(combo)] = [{k: r[k] for k in keep if k in r} for r in recs]
+            # lazy callables under the environment-provided state
+            out["lazy"] = []
+            env_flag = out["flags"][0]
+            for combo in CHILD_LAZY_COMBOS:
+                for tname, ops in CHILD_LAZY_TEMPLATES:
+                    try:
+                        recs = run_lazy(fx, w, combo, env_flag, template_ops(ops), managed=False)
+                    finally:
+                        try:
+                            fx.config.update(D_ITEM, env_flag)
+                        except Exception:  # noqa: BLE001
+                            pass
+                        if getattr(fx.config, D_ITEM) is not env_flag:
+                            setattr(fx.config, D_ITEM, env_flag)
+                    for r in recs:
+                        for e in r["events"]:
+                            if e["eq"]:  # keep the report small: texts only where the two sides differ
+                                e["d"] = e["p"] = "(equal)"
+                    out["lazy"].append(dict(combo=list(combo), template=tname, recs=recs))
     sys.stdout.write("\nC19CHILD " + json.dumps(out) + "\n")
 
 
@@ -1140,6 +1636,27 @@ def judge_child(envset, rep):
                         dict(combo=list(combo), step=step, call=call),
                     )
                 )
+    # lazy callables: the switch state at decoration is the environment-provided one
+    templates = dict(CHILD_LAZY_TEMPLATES)
+    for case in rep.get("lazy", []):
+        combo, tname = tuple(case["combo"]), case["template"]
+        ops = templates[tname]
+        je = lazy_judges_enabled(combo)
+        for r in case["recs"]:
+            n = len(r["events"])
+            ev += n
+            if lazy_nontrivial(r, combo[3], bool(exp[D_ITEM]) or "ON" in ops[: r["created_at"]]):
+                nt += n
+            verdict = judge_lazy(r, combo[3], je)
+            if verdict:
+                phase, reason = verdict
+                bad.append(
+                    (
+                        f"C19:env:{tag}:lazy:{combo_str(combo)}:{tname}:{r['call']}:{phase}:{reason}",
+                        f"environment {tag}: " + lazy_what(combo, bool(exp[D_ITEM]), ops, r, phase, reason),
+                        dict(lazy=dict(combo=list(combo), template=tname, call=r["call"])),
+                    )
+                )
     return bad, ev, nt
 
 
@@ -1165,8 +1682,8 @@ def _job_env(job):
     rep = run_child(envset)
     bad, ev, nt = judge_child(envset, rep)
     viols = [Violation(key=k, what=w, replay=dict(part="env", env=envset, **x)).to_json() for k, w, x in bad[:40]]
-    sample = dict(part="env", env=envset, import_outcome=rep["import"], flags=rep.get("flags"), cases=len(rep.get("cases", {})))
-    return dict(stats=dict(evaluations=ev, nontrivial=nt, env_subprocesses=1), viols=viols, samples=[sample] if envset.get(ENV_OF[D_ITEM]) == "tRuE" else [])
+    sample = dict(part="env", env=envset, import_outcome=rep["import"], flags=rep.get("flags"), cases=len(rep.get("cases", {})), lazy_cases=len(rep.get("lazy", [])))
+    return dict(stats=dict(evaluations=ev, nontrivial=nt, env_subprocesses=1, env_lazy_cases=len(rep.get("lazy", []))), viols=viols, samples=[sample] if envset.get(ENV_OF[D_ITEM]) == "tRuE" else [])
 
 
 # --------------------------------------------------------------------------- driver
@@ -1176,7 +1693,7 @@ def _job(job):
     import warnings
 
     warnings.simplefilter("ignore")
-    return {"hist": _job_hist, "matrix": _job_matrix, "update": _job_update, "env": _job_env, "dc": _job_dc}[job["part"]](job)
+    return {"hist": _job_hist, "matrix": _job_matrix, "update": _job_update, "env": _job_env, "dc": _job_dc, "lazy-hist": _job_lazy_hist, "lazy-matrix": _job_lazy_matrix}[job["part"]](job)
 
 
 HIST_COMBOS_QUICK = [
@@ -1197,7 +1714,34 @@ HIST_COMBOS_EXTRA = [
     ("deco", "property_inner", None),
     ("hook", "method", None),
     ("hook", "dataclass", None),
+    ("deco", "lambda", None),
 ]
+LAZY_HIST_QUICK = [
+    ("deco", "coro_def", None),
+    ("deco", "gen_def", None),
+    ("deco", "agen_def", None),
+    ("deco", "coro_method", None),
+    ("deco", "coro_classmethod_outer", None),
+    ("deco", "gen_staticmethod_inner", None),
+    ("deco", "coro_def", "above"),
+    ("deco", "coro_def", "below"),
+    ("hook", "gen_def", None),
+]
+
+
+def lazy_hist_combos(ctx):
+    """-> [(combo, maxlen)]; both decoration-time switch states are run for each."""
+    ml = 4 if ctx.quick else 5
+    out = [((d, k, t, n), ml) for d, k, n in LAZY_HIST_QUICK for t in TCS]
+    if ctx.thorough:
+        seen = {c for c, _ in out}
+        extra = [("deco", k, t, None) for k in LAZY_KINDS for t in TCS]
+        extra += [("deco", k, "none", None) for k in ("coro_def", "gen_def", "agen_def")]
+        extra += [("deco", k, t, n) for k in ("gen_def", "agen_def") for t in TCS for n in ("above", "below")]
+        extra += [("hook", k, t, None) for k in HOOK_LAZY_KINDS for t in TCS]
+        out += [(c, 4) for c in extra if c not in seen]
+    return out
+
 
 
 def build_jobs(ctx):
@@ -1224,6 +1768,15 @@ def build_jobs(ctx):
     mc = matrix_combos()
     for idx in common.shards(len(mc), 8, ctx.seed):
         jobs.append(dict(part="matrix", combos=[list(mc[i]) for i in idx]))
+    lhc = lazy_hist_combos(ctx)
+    for combo, ml in lhc:
+        n = len(lazy_histories(ml))
+        for initial in (False, True):
+            for idx in common.shards(n, 1 if ml <= 4 else 4, ctx.seed):
+                jobs.append(dict(part="lazy-hist", combo=list(combo), initial=initial, maxlen=ml, idx=idx))
+    lmc = lazy_matrix_combos()
+    for idx in common.shards(len(lmc), 8, ctx.seed):
+        jobs.append(dict(part="lazy-matrix", combos=[list(lmc[i]) for i in idx]))
     jobs.append(dict(part="dc"))
     vfull = [enc_value(v) for v in values_full()]
     vcore = [enc_value(v) for v in VALUES_CORE]
@@ -1244,6 +1797,10 @@ def build_jobs(ctx):
         histories_per_combo=nh,
         history_combos=[f"{combo_str(c)}:stack-{int(s)}:len<={ml}" for c, s, ml in hist_combos],
         matrix_combos=len(mc),
+        lazy_history_max_len=maxlen,
+        lazy_histories_per_combo={ml: len(lazy_histories(ml)) for ml in sorted({m for _, m in lhc})},
+        lazy_history_combos=[f"{combo_str(c)}:len<={ml}" for c, ml in lhc],
+        lazy_matrix_combos=len(lmc),
         env_cases=len(env_cases()),
         item_casings={D_ITEM: len(d_all), S_ITEM: len(s_near)},
         switch_values=len(vfull),
@@ -1257,6 +1814,10 @@ def _job_sort_key(job):
     if p == "hist":
         return (p, json.dumps(job["combo"]), job["stack"], job["maxlen"], job["idx"][0])
     if p == "matrix":
+        return (p, json.dumps(job["combos"][0]), False, 0, 0)
+    if p == "lazy-hist":
+        return (p, json.dumps(job["combo"]), job["initial"], job["maxlen"], min(job["idx"]))
+    if p == "lazy-matrix":
         return (p, json.dumps(job["combos"][0]), False, 0, 0)
     if p == "dc":
         return (p, "", False, 0, 0)
@@ -1295,7 +1856,7 @@ def run(ctx):
     stats["evaluations"] += n_none
     stats["nontrivial"] += n_none
     per_part["none"] = dict(evaluations=n_none, nontrivial=n_none, jobs=1)
-    picked = [x for p in ("hist", "matrix", "update", "env") for x in by_part.get(p, [])[:2]] + s_none
+    picked = [x for p in ("hist", "matrix", "lazy-hist", "lazy-matrix", "update", "env") for x in by_part.get(p, [])[:2 if p in ("hist", "update") else 1]] + s_none
     if stats.get("stack_cause_inconsistent"):
         notes = [f"remove_typechecker_stack: {stats['stack_cause_inconsistent']} TypeCheckErrors whose __cause__ did not follow the switch (not part of the statement; not judged)"]
     else:
@@ -1306,7 +1867,8 @@ def run(ctx):
         rule="one evaluation = one judged observation: (a) a call made on the decorated callable AND on the same source without jaxtyped at one point of one "
         "operation history / matrix script / environment, compared by result identity, exception identity (type+message for interpreter-made ones), "
         "body log (run count, argument identities, context probe); (b) one config.update(item, value) from one prior state. All cases are distinct by "
-        "construction (history x kind x typechecker x callable index x op index; script x step x call; name x prior x value). Non-trivial = the outcome "
+        "construction (history x kind x typechecker x callable index x op index; script x step x call; name x prior x value; for lazy callables one evaluation = one MOMENT "
+        "(the call, or one step of driving the returned coroutine / generator / async generator) of one object of one history). Non-trivial = the outcome "
         "would differ if the switch were ignored: a call made while checking is off (switch or no_type_check) whose arguments are ill-typed, "
         "non-binding, produce an ill-typed return or make the body raise; an ill-typed call made after checking was switched back on or on a callable "
         "decorated while off; an update that must flip the flag or must be rejected",
@@ -1327,12 +1889,28 @@ def run(ctx):
             cases=stats.get("dc_ntc_on_descriptor_object_cases", 0), checks_still_on=stats.get("dc_ntc_on_descriptor_object_checks_still_on", 0)
         ),
         stack_cause_checked=stats.get("stack_cause_checked", 0),
+        lazy=dict(
+            kinds=list(LAZY_KINDS),
+            histories_executed=stats.get("lazy_histories", 0),
+            objects_compared=stats.get("lazy_objects", 0),
+            moments_compared=stats.get("lazy_events", 0),
+            objects_whose_life_spans_a_switch_flip=stats.get("lazy_objects_switch_moved_during_life", 0),
+            calls_where_plain_code_raises_at_call_time=stats.get("lazy_call_time_exceptions", 0),
+            matrix_cases=stats.get("lazy_matrix_cases", 0),
+            matrix_templates=[t[0] for t in LAZY_TEMPLATES],
+            env_cases=stats.get("env_lazy_cases", 0),
+            dontcare_enabled_illtyped_switch_moved_during_life=stats.get("lazy_enabled_illtyped_dontcare", 0),
+            hooked_async_def_illtyped_calls=dict(observed=stats.get("lazy_hook_async_objects", 0), checked_by_the_hook=stats.get("lazy_hook_async_checked", 0)),
+        ),
         bounds=f"histories: all sequences of length <= {info['history_max_len']} over {list(OPS)} ({info['histories_per_combo']} per combination; "
-        "thorough adds 10 further combinations at length <= 4), each started from one callable decorated while enabled; "
+        "thorough adds 12 further combinations at length <= 4), each started from one callable decorated while enabled; "
+        f"lazy callables: all sequences of length <= {info['lazy_history_max_len']} over {list(LOPS)} ({info['lazy_histories_per_combo']} per combination by length bound), "
+        f"each from a callable decorated while enabled and while disabled, {len(info['lazy_history_combos'])} combinations; lazy matrix: {info['lazy_matrix_combos']} combinations "
+        f"({len(LAZY_KINDS)} kinds x typeguard/beartype/typechecker=None x no_type_check placements, + hooked) x {len(LAZY_TEMPLATES)} switch-timing templates x {len(F1)} argument lists; "
         f"item names: all {info['item_casings'][D_ITEM]} letter-casings of jaxtyping_disable, {info['item_casings'][S_ITEM]} casings of "
         "jaxtyping_remove_typechecker_stack (<= 2 letters flipped from all-lower / all-upper, alternating, title: 2^31 is out of reach); "
         f"{info['switch_values']} switch values incl. every casing of true/false; environment: {info['env_cases']} subprocesses",
-        **{k: v for k, v in info.items() if k in ("history_combos", "matrix_combos")},
+        **{k: v for k, v in info.items() if k in ("history_combos", "matrix_combos", "lazy_history_combos", "lazy_matrix_combos")},
     )
     return Result(
         level="exploration",
@@ -1348,7 +1926,9 @@ def run(ctx):
         + [
             "don't-care: non-bool 0/1/1.0/0.0 as switch value (accepted-as-bool or ValueError both allowed); item names not in lower case may also be rejected with ValueError; "
             "non-binding calls while checking is ON; no_type_check applied to a classmethod/staticmethod/property OBJECT or to a dataclass (Python marks no function there); "
-            "old-style '@jaxtyped @typechecker' (the typechecker keeps checking by itself) is outside the alphabet; typechecker=None is covered by the small 'none' part",
+            "old-style '@jaxtyped @typechecker' (the typechecker keeps checking by itself) is outside the alphabet; typechecker=None is covered by the small 'none' part "
+            "and as a third 'typechecker' of the lazy kinds; lazy callables: an ill-typed call made while checking is ON is only required to raise TypeCheckError at SOME moment, and only "
+            "if the switch stayed on for the object's whole life; ill-typed yielded / awaited results while ON are not judged; hooked `async def` while ON is not judged (the hook does not instrument it)",
         ],
     )
 
@@ -1612,7 +2192,9 @@ def replay(rep):
     if part == "env":
         child = run_child(rep["env"])
         bad, _, _ = judge_child(rep["env"], child)
-        if "combo" in rep:
+        if "lazy" in rep:
+            hit = [b for b in bad if b[2].get("lazy") == rep["lazy"]]
+        elif "combo" in rep:
             hit = [b for b in bad if b[2].get("combo") == rep["combo"] and b[2].get("step") == rep["step"] and b[2].get("call") == rep["call"]]
         else:
             hit = bad
@@ -1638,6 +2220,21 @@ def replay(rep):
             return dict(
                 violates=any(reason for _, _, reason in hit),
                 observations=[dict(call=r["call"], switch_on=dis, decorated=r["d"], undecorated=r["p"], reason=reason) for r, dis, reason in hit],
+            )
+        if part in ("lazy-hist", "lazy-matrix"):
+            combo = tuple(rep["combo"])
+            with World(fx, need_hook=(combo[0] == "hook")) as w:
+                if part == "lazy-hist":
+                    recs = [r for r in run_lazy(fx, w, combo, rep["initial"], lazy_ops(tuple(rep["ops"]))) if r["obj"] == rep["obj"] or r["group"] == "u"]
+                else:
+                    recs = [r for r in run_lazy_template(fx, w, combo, rep["template"])[2] if r["call"] == rep["call"] or r["group"] == "u"]
+            verdicts = [(r, judge_lazy(r, combo[3], lazy_judges_enabled(combo))) for r in recs]
+            return dict(
+                violates=any(v for _, v in verdicts),
+                observations=[
+                    dict(call=r["call"], made_while_checking="off" if r["flag_at_create"] else "on", verdict=v, events=[(e["phase"], e["at"], "off" if e["flag"] else "on", e["d"], e["p"]) for e in r["events"]])
+                    for r, v in verdicts
+                ],
             )
         if part == "matrix":
             combo = tuple(rep["combo"])
